@@ -30,7 +30,7 @@ ASSUMPTIONS = ["float64 only; central differences along random unit directions w
                "precision 1e-6 and is held constant by autograd); a mismatch must persist for h/10, 10h, h/100 and h/1000 (a kink of a piecewise-linear "
                "criterion or of the cost term inside the stencil does not)",
                "smooth activations only (a ReLU kink is not a generic parameter point)"]
-PROBES = ["hedger_call_aborted_by_model", "evaluation_only_call_raised", "fd_frozen", "fd_replay", "prev_hedge_in_loss", "cost_positive", "H2", "criterion_parameter", "after_fit", "no_graph_price",
+PROBES = ["mixed_precision_hedge_list", "hedger_call_aborted_by_model", "evaluation_only_call_raised", "fd_frozen", "fd_replay", "prev_hedge_in_loss", "cost_positive", "H2", "criterion_parameter", "after_fit", "no_graph_price",
           "no_graph_loss", "ambient_enable_grad", "ambient_no_grad", "graph_monitor", "fd_retry_other_h", "listed_hedge", "n_times_ge2", "eval_mode", "fd_truncation_dominated"]
 CRITS = ["EntropicRiskMeasure", "ExpectedShortfall", "QuadraticCVaR", "EntropicLoss", "IsoelasticLoss", "OCE", "MSELoss", "L1Loss"]
 
@@ -61,6 +61,19 @@ def generate(rng):
     m["dtype"] = "float64"
     world = {"primaries": [prim], "derivatives": derivs, "models": [m], "criteria": [crit], "hedgers": [h]}
     n = rng.choice([2, 3, 5, 8])
+    if hedge is None and rng.chance(0.1) and "in" in m:
+        # a second stock of lower precision heads the hedge list (float32 next to the float64 underlier); the model is float64.
+        # Only frozen-batch operations here: the extra stock is simulated alongside by the caller
+        from ..gen import nin_of
+        world["primaries"].append({"id": "p1", "kind": "BrownianStock", "dtype": "float32",
+                                   "params": {"dt": prim["params"]["dt"], "cost": rng.choice([0.0, 1e-3]), "sigma": 0.25, "mu": 0.0}})
+        m["out"] = 2
+        m["in"] = nin_of(h["inputs"], 2)
+        ops = [{"op": "simulate", "n_paths": n, "torch_seed": rng.seed31(), "also_p1": True}]
+        for _ in range(rng.randint(2, 4)):
+            ops.append({"op": rng.choice(["fd_frozen", "fd_frozen", "seam"]), "hedge": ["p1", "p0"], "seed": rng.seed31(),
+                        "mode": rng.choice(["train", "eval"])})
+        return {"profile": "c14", "env": {"default_dtype": "float32"}, "world": world, "ops": ops}
     ops = [{"op": "simulate", "n_paths": n, "torch_seed": rng.seed31()}]
     if rng.chance(0.3):
         ops.append({"op": "fit1", "n_paths": rng.choice([2, 4]), "torch_seed": rng.seed31()})
@@ -243,6 +256,9 @@ def _execute(program, stats, hist):
             torch.manual_seed(op["torch_seed"])
             try:
                 d.simulate(n_paths=op["n_paths"])
+                if op.get("also_p1"):
+                    world.primaries["p1"].simulate(n_paths=op["n_paths"], time_horizon=d.maturity)
+                    stats.probe("mixed_precision_hedge_list")
             except Exception as e:
                 raise Inconclusive("simulate raised %r" % (e,))
             stats.market_years += op["n_paths"] * d.maturity
